@@ -932,6 +932,13 @@ impl Compiler {
 
             // Pop scope
             self.builder.emit(Op::PopScope);
+
+            // While the catch block ran, a finally-only handler stood in for this
+            // statement (so that break/continue/return/throw inside the catch still run
+            // the finalizer); the catch block completed normally, so retire it
+            if try_stmt.finalizer.is_some() {
+                self.builder.emit(Op::PopTry);
+            }
         }
 
         // Jump to finally (if exists) or end
